@@ -16,3 +16,4 @@ registry['C20'] = _lazy('c20')
 registry['C19'] = _lazy('c19')
 registry['C18'] = _lazy('c18')
 registry['C15'] = _lazy('c15')
+registry['C14'] = _lazy('c14')
